@@ -739,6 +739,12 @@ def fam_approx_tail(seed, tail=None):
         f = int(r.choice([2, 4])) if max(h, w) <= 8 else 2
         ac = bool(r.integers(0, 2))
         hp = (not ac) and bool(r.integers(0, 2))
+        if r.integers(0, 4) == 0 and len(g.net.ops) == 0:
+            # tall and narrow / wide and flat maps: row and column strides of the interleaved output tiles differ by a large factor
+            hh, ww = int(r.choice([16, 24, 32])), int(r.choice([2, 4]))
+            h, w = (hh, ww) if r.integers(0, 3) else (ww, hh)
+            f = 2
+            g.net.tensors[-1].shape = [1, h, w, c]
         oh, ow = (h * f, w * f) if not ac else ((h - 1) * f + 1, (w - 1) * f + 1)
         if ac and (h == 1 or w == 1):
             ac, oh, ow = False, h * f, w * f
@@ -872,13 +878,17 @@ def fam_lut_stress(seed):
     n = int(r.integers(2, 6))
     same_scale = g.rscale()
     same_zp = g.rzp()
+    repeat = r.integers(0, 3) == 0  # the same table again and again, with nothing but operators carrying their own fused clamp in between
+    rkind = str(r.choice(["logistic", "tanh"]))
     for i in range(n):
         # force equal quantisation before some activations so that LUT contents coincide
-        if r.integers(0, 2):
-            x = g.conv(x, c, int(r.choice([1, 3])), 1, PAD_SAME, 0, oscale=same_scale, ozp=same_zp)
+        if repeat:
+            x = g.conv(x, c, int(r.choice([1, 3])), 1, PAD_SAME, int(r.choice([ACT_RELU, ACT_RELU6, ACT_RELU, ACT_NONE])), oscale=same_scale, ozp=same_zp)
+        elif r.integers(0, 2):
+            x = g.conv(x, c, int(r.choice([1, 3])), 1, PAD_SAME, int(r.choice([0, 0, ACT_RELU])), oscale=same_scale, ozp=same_zp)
         else:
             x = g.conv(x, c, 1, 1, PAD_SAME, 0)
-        kind = str(r.choice(kinds))
+        kind = rkind if repeat else str(r.choice(kinds))
         x = g.unary(kind, x, alpha=0.1 if kind == "leaky_relu" else None)
     return g.finish([x], "lut-stress", "approx", tol=None)  # error may accumulate: not used for C01 equality
 
@@ -931,7 +941,12 @@ def fam_cpu_mix(seed):
             a = g.eltwise("add", x0, g.const_act([1, 1, 1, c]), oscale=X0.scale[0], ozp=X0.zp[0])
         else:
             a = g.unary("leaky_relu", x0, oscale=X0.scale[0], ozp=X0.zp[0])
-        x = g.cpu_op(a, "floor_div", other=x0)
+        if r.integers(0, 2):
+            x = g.cpu_op(a, "floor_div", other=x0)
+        else:
+            # ... or by an accelerated operator of a later Ethos-U subgraph (the CPU operator in between splits the graph)
+            s_ = g.cpu_op(a, str(r.choice(["neg", "custom", "reverse"])))
+            x = g.eltwise(str(r.choice(["add", "sub", "mul"])), *((s_, x0) if r.integers(0, 2) else (x0, s_)))
         n = int(r.integers(1, 4))
     if r.integers(0, 5) == 0:
         # a tensor produced on the accelerator and read by two or three operators that fall back to the CPU
@@ -1009,16 +1024,17 @@ def fam_stripe_resize(seed):
     (nearest-neighbour upscaled IFM, kernel over the replicated rows).  No output tolerance is claimed (the resize is approximated mid-network)."""
     r = rng_for("stripe-resize", seed)
     g = G(r, "int8")
-    h, w, c = int(r.choice([16, 24, 32, 40])), int(r.choice([8, 12, 16])), int(r.choice([8, 16]))
+    h, w, c = int(r.choice([16, 24, 32, 40])), int(r.choice([8, 12, 16, 2, 4])), int(r.choice([8, 16]))
     x = g.input([1, h, w, c])
     x = g.conv(x, int(r.choice([8, 16])), int(r.choice([1, 3])), 1, PAD_SAME, int(r.choice([0, 1])))
     f = int(r.choice([2, 2, 4]))
     kind = str(r.choice(["resize_bilinear", "resize_bilinear", "resize_nearest"]))
     ac = bool(r.integers(0, 4) == 0)
+    hp = (not ac) and r.integers(0, 3) == 0  # half-pixel centres: the bilinear resize is lowered to four interleaved depthwise convolutions
     X = g.T(x)
     oh, ow = (X.shape[1] * f, X.shape[2] * f) if not ac else ((X.shape[1] - 1) * f + 1, (X.shape[2] - 1) * f + 1)
-    x = g.resize(x, kind, oh, ow, ac, False)
-    for _ in range(int(r.integers(1, 3))):
+    x = g.resize(x, kind, oh, ow, ac, hp)
+    for _ in range(int(r.integers(0 if hp or w <= 4 else 1, 3))):  # without a consumer the resized map is the last (topmost) tensor of the arena
         x = g.conv(x, int(r.choice([8, 16])), int(r.choice([1, 3, 3])), 1, int(r.choice([PAD_SAME, PAD_VALID])), int(r.choice([0, 1])))
     return g.finish([x], "stripe-resize", "approx-mid", None)
 
